@@ -224,7 +224,7 @@ _check_fs = Contract(
 
 from contracts import load as _loading
 CONTRACTS = [_line, _column, _tree_start, _tree_string, _def_start, _def_end, _line_code, _def_ref, _side, _check_fs,
-             _loading.load_python_module]
+             _loading.load_python_module, _loading.parse_and_get_code]
 
 
 def register(reg):
